@@ -368,6 +368,13 @@ class CallOps:
     def builtin_reduce(self, args, node):
         # reduce(f, text.splitlines()) re-indents text: modelled as an uninterpreted function of the text
         f, xs = args[0], args[1]
+        if xs.elems is not None and len(args) == 2:
+            if not xs.elems:
+                self.fail('TypeError', 'reduce() of empty sequence with no initial value', getattr(node, 'lineno', 0))
+            acc = xs.elems[0]
+            for x in xs.elems[1:]:
+                acc = self.call_value(f, [acc, x], {}, node)
+            return acc
         if xs.extra and isinstance(xs.extra, dict) and 'splitlines_of' in xs.extra:
             src = xs.extra['splitlines_of']
             if f.kind == 'func' and 'lambda' in f.extra:
